@@ -146,6 +146,10 @@ func (t jtx) render(order int, dupKey string) string {
 		body += `,"conversion":"pUSD"`
 	case "tx.transfers":
 		body += `,"transfers":[]`
+	case "tx.transfers-null":
+		body += `,"transfers":null`
+	case "tx.conversion-empty":
+		body = `"conversion":"",` + body
 	case "tx.extra":
 		body += `,"note":"x"`
 	case "tx.both":
@@ -158,7 +162,7 @@ func (t jtx) render(order int, dupKey string) string {
 	return "{" + body + "}"
 }
 
-var dupKinds = []string{"", "", "", "", "input.missing-type", "input.missing-type-dup", "input.amount", "input.address", "input.type", "input.extra", "transfer.amount", "transfer.extra", "tx.input", "tx.conversion", "tx.transfers", "tx.extra", "tx.both",
+var dupKinds = []string{"", "", "", "", "input.missing-type", "input.missing-type-dup", "input.amount", "input.address", "input.type", "input.extra", "transfer.amount", "transfer.extra", "tx.input", "tx.conversion", "tx.transfers", "tx.transfers-null", "tx.conversion-empty", "tx.extra", "tx.both",
 	"batch.version", "batch.transactions", "batch.extra", "batch.metadata", "case.version", "case.transactions", "case.input", "case.amount", "unicode.key", "neither", "two-inputs", "unknown-ticker", "unknown-conv", "ws"}
 
 func (g *c20gen) batch() (string, string) {
